@@ -198,6 +198,13 @@ impl<'a> Drive<'a> {
                         stats.known(&signature);
                         return Ok(());
                     }
+                    if signature.starts_with("rig:") {
+                        // the machinery itself could not set the case up (sockets, helper processes): never a verdict
+                        if stats.inconclusive.len() < 20 {
+                            stats.inconclusive.push(format!("{}: {}", signature, detail.chars().take(300).collect::<String>()));
+                        }
+                        return Ok(());
+                    }
                     match first_sig {
                         None => {
                             *first_sig = Some(signature.clone());
